@@ -17,10 +17,10 @@ UNIT_TIMEOUT = {'quick': 280, 'thorough': 1500}
 CONFIGS = {
     'quick': [('electricity', 2, 2, 1, {}), ('direct-use', 2, 2, 1, {'em': 1}), ('chiller', 2, 1, 1, {'em': 3}), ('heat-pump', 2, 2, 2, {}), ('district-heating', 2, 1, 1, {}),
               ('cogen-topping', 2, 2, 1, {'em': 3, 'carbon': True}), ('cogen-bottoming', 2, 1, 2, {}), ('cogen-parallel', 2, 2, 1, {'em': 1}),
-              ('electricity', 3, 2, 1, {'overpressure': True}), ('electricity', 2, 1, 1, {'segments': 3, 'ramey': False, 'pi': True, 'alt': True})],
+              ('electricity', 3, 2, 1, {'overpressure': True}), ('electricity', 2, 1, 1, {'segments': 3, 'ramey': False, 'pi': True, 'alt': True}), ('direct-use', 2, 1, 1, {'splitwell': True})],
     'thorough': [(k, L, T, K, x) for k in c04.KINDS for (L, T, K) in ((2, 2, 1), (3, 1, 2), (4, 3, 3)) for x in ({}, {'em': 1}, {'em': 3, 'carbon': True})] +
                 [('electricity', 3, 2, 1, {'overpressure': True}), ('electricity', 2, 1, 1, {'segments': 3, 'ramey': False, 'pi': True}),
-                 ('direct-use', 3, 2, 1, {'overpressure': True, 'pi': True}), ('electricity', 2, 2, 1, {'resmodel': 1}), ('direct-use', 2, 2, 1, {'resmodel': 3})],
+                 ('direct-use', 3, 2, 1, {'overpressure': True, 'pi': True}), ('direct-use', 2, 1, 1, {'splitwell': True}), ('electricity', 2, 2, 2, {'splitwell': True, 'em': 3}), ('electricity', 2, 2, 1, {'resmodel': 1}), ('direct-use', 2, 2, 1, {'resmodel': 3})],
 }
 META = {
     'explanation': 'Every numeric quantity of a real, fully calculated Model is replaced by a fresh solver variable (each element of each '
@@ -99,6 +99,10 @@ def build_oracle(m, V, cfg):
     put('Interest Rate', lambda: V(ec + 'interest_rate'))
     put('Accrued financing during construction', lambda: V(ec + 'inflrateconstruction') * 100)
     put('Capacity factor', lambda: V(sp + 'utilization_factor') * 100, '%')
+    put('Drilling and completion costs per production well', lambda: V(ec + 'cost_one_production_well'))
+    put('Drilling and completion costs per injection well', lambda: V(ec + 'cost_one_injection_well'))
+    put('Drilling and completion costs per vertical production well', lambda: V(ec + 'cost_one_production_well'))
+    put('Drilling and completion costs per vertical injection well', lambda: V(ec + 'cost_one_injection_well'))
     put('Project NPV', lambda: V(ec + 'ProjectNPV'))
     put('Project IRR', lambda: V(ec + 'ProjectIRR'))
     put('Project VIR=PI=PIR', lambda: V(ec + 'ProjectVIR'), '')
@@ -291,6 +295,8 @@ def params_for(kind, L, T, K, x):
         cfg['noimp'] = True
     if x.get('ramey') is False:
         extra.update({'Ramey Production Wellbore Model': 0, 'Production Wellbore Temperature Drop': 5})
+    if x.get('splitwell'):
+        extra.update({'Injection Well Drilling and Completion Capital Cost Adjustment Factor': 1.4, 'Well Drilling and Completion Capital Cost Adjustment Factor': 0.9})
     if x.get('addon'):
         cfg['addon'] = int(x['addon'])
     if x.get('sdac'):
@@ -753,6 +759,11 @@ def replay_unit(cfg, label, kind_of_check):
             changed[name] = others[0].value
     if not changed:
         return False, {'note': 'the unit enum of the printed quantity has a single member'}
+    if label.startswith('Drilling and completion costs per') and 'well' in label:
+        # these lines are printed only when the two per-well costs differ (a branch the symbolic run takes for some values)
+        e_ = m.economics
+        if round(float(e_.cost_one_production_well.value), 4) == round(float(e_.cost_one_injection_well.value), 4):
+            e_.cost_one_injection_well.value = float(e_.cost_one_production_well.value) * 1.25 + 0.5
     d = tempfile.mkdtemp(prefix='symx_c09u_')
     try:
         m.outputs.output_file = os.path.join(d, 'r.out')
